@@ -12,10 +12,21 @@ K = KIND
 class Compose(Contract):
     name = 'optree::PyTreeSpec::Compose'
     props = ('C08', 'C10')
+    abstract_mul = True
 
     def __init__(self):
         self.loops = {0: Loop(self.inv, body_post=self.body_post, index='node__idx', hints=self.hints,
                               decreases=lambda cx: cx.this_vec(cx.entry).len - cx.var('node__idx'))}
+
+    def setup(self, eng, st, fn):
+        from ..cxx.symex import State
+        cx = super().setup(eng, st, fn)
+        m = self.views['inner_treespec'].v.len
+        for name, e in (('mul-zero', M.mul(z3.IntVal(0), m) == 0),):
+            real = z3.substitute_funs(e, (M.mul, z3.Var(0, M.Int) * z3.Var(1, M.Int)))
+            eng.oblige(State(), 'L', f'lemma:{name}', real)       # proved for real multiplication
+            st.facts.append(e)                                    # used for the abstract product
+        return cx
 
     def sizes(self, cx):
         v, w = self.views['this'], self.views['inner_treespec']
@@ -43,11 +54,11 @@ class Compose(Contract):
         t = cx.st.heap[spec.trav]
         last = t.len - 1
         return [('idx-range', z3.And(0 <= idx, idx <= n)),
-                ('length', t.len == (idx - v.PL(idx)) + v.PL(idx) * m),
+                ('length', t.len == (idx - v.PL(idx)) + M.mul(v.PL(idx), m)),
                 ('nonempty', z3.Implies(idx > 0, t.len >= 1)),
-                ('last-leaves', z3.Implies(idx > 0, t.sel('num_leaves', last) == v.NL(idx - 1) * l)),
+                ('last-leaves', z3.Implies(idx > 0, t.sel('num_leaves', last) == M.mul(v.NL(idx - 1), l))),
                 ('last-nodes', z3.Implies(idx > 0, t.sel('num_nodes', last) ==
-                                          (v.NN(idx - 1) - v.NL(idx - 1)) + v.NL(idx - 1) * m)),
+                                          (v.NN(idx - 1) - v.NL(idx - 1)) + M.mul(v.NL(idx - 1), m))),
                 ('flags', self.flags(cx, spec))]
 
     def hints(self, cx):
@@ -57,12 +68,11 @@ class Compose(Contract):
         P, P1 = v.PL(idx), v.PL(idx + 1)
         L = v.NL(n - 1)
         step = z3.If(v.K(idx) == K['Leaf'], 1, 0)
+        leaf = v.K(idx) == K['Leaf']
         return [('PL-step', z3.Implies(idx < n, P1 == P + step)),
-                ('PL-step-scaled', z3.Implies(P1 == P + step, P1 * m == P * m + z3.If(v.K(idx) == K['Leaf'], m, 0)), 'pure'),
+                ('PL-step-scaled', z3.Implies(P1 == P + step, M.mul(P1, m) == M.mul(P, m) + z3.If(leaf, m, 0)), 'mul'),
                 ('total-leaves', L == v.PL(n)),
-                ('congruence-total', z3.Implies(L == v.PL(n), z3.And(L * m == v.PL(n) * m, L * l == v.PL(n) * l)), 'pure'),
-                ('exit-congruence', z3.Implies(idx == n, z3.And(v.NL(idx - 1) * m == L * m, v.NL(idx - 1) * l == L * l)),
-                 'pure'),
+                ('mul-one', z3.And(M.mul(z3.IntVal(1), m) == m, M.mul(z3.IntVal(1), l) == l), 'mul'),
                 ('exit-root', z3.Implies(idx == n, v.NN(idx - 1) == n))]
 
     def body_post(self, cx):
@@ -84,9 +94,9 @@ class Compose(Contract):
         spec = cx.obj(ret)
         t = cx.st.heap[spec.trav]
         a, b = cx.this_spec(cx.entry), cx.obj(cx.old('inner_treespec'), cx.entry)
-        return [('num-nodes', t.len == (n - L) + L * m),
+        return [('num-nodes', t.len == (n - L) + M.mul(L, m)),
                 ('root-num-nodes-consistent', t.sel('num_nodes', t.len - 1) == t.len),
-                ('num-leaves', t.sel('num_leaves', t.len - 1) == L * l),
+                ('num-leaves', t.sel('num_leaves', t.len - 1) == M.mul(L, l)),
                 ('flags', self.flags(cx, spec)),
                 ('no-error-implies-compatible', z3.And(a.nil == b.nil, z3.Not(self.ns_conflict(cx))))]
 
